@@ -12,12 +12,15 @@ import (
 	"strconv"
 	"strings"
 	"sync"
+	"sync/atomic"
 	"time"
 
 	corev1 "k8s.io/api/core/v1"
 	metav1 "k8s.io/apimachinery/pkg/apis/meta/v1"
 	"k8s.io/client-go/informers"
+	coreinformers "k8s.io/client-go/informers/core/v1"
 	kubefake "k8s.io/client-go/kubernetes/fake"
+	corelisters "k8s.io/client-go/listers/core/v1"
 
 	v1 "sigs.k8s.io/node-ipam-controller/pkg/apis/clustercidr/v1"
 	ccfake "sigs.k8s.io/node-ipam-controller/pkg/client/clientset/versioned/fake"
@@ -26,6 +29,33 @@ import (
 )
 
 func init() { modes["race"] = runRace }
+
+// slowNodeInformer hands the allocator a node lister whose Get, while [on] is set, pauses for a moment after it has found a
+// node that holds pod CIDRs: delay injection.  A look-up made under the allocator lock only holds the lock a little longer;
+// a look-up whose answer is acted upon later (check, then lock) gets a window in which a deletion can slip in.
+type slowNodeInformer struct {
+	coreinformers.NodeInformer
+	on    *atomic.Bool
+	delay time.Duration
+}
+
+type slowNodeLister struct {
+	corelisters.NodeLister
+	on    *atomic.Bool
+	delay time.Duration
+}
+
+func (s slowNodeInformer) Lister() corelisters.NodeLister {
+	return slowNodeLister{NodeLister: s.NodeInformer.Lister(), on: s.on, delay: s.delay}
+}
+
+func (l slowNodeLister) Get(name string) (*corev1.Node, error) {
+	n, err := l.NodeLister.Get(name)
+	if err == nil && l.on.Load() && len(n.Spec.PodCIDRs) > 0 {
+		time.Sleep(l.delay)
+	}
+	return n, err
+}
 
 func runRace(sc *bufio.Scanner, out *bufio.Writer) {
 	for sc.Scan() {
@@ -37,18 +67,20 @@ func runRace(sc *bufio.Scanner, out *bufio.Writer) {
 			fmt.Fprintf(out, "case %s\n", f[1])
 			continue
 		}
-		if f[0] != "workload" || len(f) < 4 {
+		if (f[0] != "workload" && f[0] != "churn") || len(f) < 4 {
 			fmt.Fprintf(out, "badcase\n")
 			continue
 		}
 		seed, _ := strconv.Atoi(f[1])
 		nNodes, _ := strconv.Atoi(f[2])
 		nCC, _ := strconv.Atoi(f[3])
-		fmt.Fprintln(out, oneWorkload(int64(seed), nNodes, nCC))
+		fmt.Fprintln(out, oneWorkload(int64(seed), nNodes, nCC, f[0] == "churn"))
 	}
 }
 
-func oneWorkload(seed int64, nNodes, nCC int) string {
+// churn: after the nodes have been served, every node is updated and deleted at (almost) the same moment, by many clients at
+// once: work items for nodes that hold pod CIDRs race with the deletion handler for the allocator lock (check-then-act windows).
+func oneWorkload(seed int64, nNodes, nCC int, churn bool) string {
 	rng := rand.New(rand.NewSource(seed))
 	ctx, cancel := context.WithCancel(bgctx)
 	defer cancel()
@@ -56,7 +88,8 @@ func oneWorkload(seed int64, nNodes, nCC int) string {
 	net := ccfake.NewSimpleClientset()
 	kf := informers.NewSharedInformerFactory(kube, 0)
 	cf := ccinformers.NewSharedInformerFactory(net, 0)
-	nodeInf := kf.Core().V1().Nodes()
+	slow := &atomic.Bool{}
+	var nodeInf coreinformers.NodeInformer = slowNodeInformer{NodeInformer: kf.Core().V1().Nodes(), on: slow, delay: 800 * time.Microsecond}
 	ccInf := cf.Networking().V1().ClusterCIDRs()
 
 	// ClusterCIDRs: disjoint /26.. ranges plus one overlapping pair, some with selectors
@@ -116,6 +149,37 @@ func oneWorkload(seed int64, nNodes, nCC int) string {
 		}
 	}()
 	wg.Wait()
+	if churn {
+		time.Sleep(400 * time.Millisecond) // let the assignments happen
+		slow.Store(true)
+		nl2, _ := kube.CoreV1().Nodes().List(ctx, metav1.ListOptions{})
+		var wg2 sync.WaitGroup
+		for g := 0; g < 16; g++ {
+			wg2.Add(1)
+			go func(g int) {
+				defer wg2.Done()
+				for i := g; i < len(nl2.Items); i += 16 {
+					n := nl2.Items[i].DeepCopy()
+					cur, err := kube.CoreV1().Nodes().Get(ctx, n.Name, metav1.GetOptions{})
+					if err != nil {
+						continue
+					}
+					cur = cur.DeepCopy()
+					if cur.Labels == nil {
+						cur.Labels = map[string]string{}
+					}
+					cur.Labels["touched"] = "1"
+					_, _ = kube.CoreV1().Nodes().Update(ctx, cur, metav1.UpdateOptions{})
+					// long enough for a worker to pick the item up, short enough for it to be still waiting for the lock
+					time.Sleep(time.Duration((seed*31+int64(i)*17)%1500) * time.Microsecond)
+					_ = kube.CoreV1().Nodes().Delete(ctx, n.Name, metav1.DeleteOptions{})
+				}
+			}(g)
+		}
+		wg2.Wait()
+		time.Sleep(300 * time.Millisecond)
+		slow.Store(false)
+	}
 	// quiescence: the API state stops changing
 	last, stable := "", 0
 	deadline := time.Now().Add(20 * time.Second)
